@@ -201,7 +201,7 @@ def _run_mutant(args):
     import signal
 
     signal.alarm(0)
-    bad = [r for r in rec.records if r["status"] == "violated" and r.get("reproduced") is not False]
+    bad = [r for r in rec.records if r["status"] == "violated"]
     err = [r for r in rec.records if r["status"] in ("error",)]
     inc = [r for r in rec.records if r["status"] == "inconclusive"]
     if bad:
